@@ -260,6 +260,26 @@ fault('contains-over-annotations', ['C19'], ('base.py',
       'return item in self.__slots__',
       "return item in self.__annotations__ or item == 'name'"))
 
+# ---- constructors (round 2: the frames are analysed from their attributes;
+# these alter what the constructor stores)
+fault('ctor-routing-key-stripped', ['C01'], ('commands.py',
+      "            self.routing_key = routing_key\n",
+      "            self.routing_key = routing_key.strip()\n"))
+fault('ctor-message-count-masked', ['C01'], ('commands.py',
+      "            self.message_count = message_count\n",
+      "            self.message_count = message_count and message_count & 0xFFFFFFFF\n"))
+fault('ctor-consumer-tag-truncated', ['C01'], ('commands.py',
+      "            self.consumer_tag = consumer_tag\n",
+      "            self.consumer_tag = consumer_tag[:255]\n"))
+fault('ctor-priority-falsy-dropped', ['C02'], ('commands.py',
+      "            self.priority = priority\n",
+      "            self.priority = priority or None\n"))
+fault('ctor-body-size-abs', ['C02'], ('header.py',
+      "        self.body_size = body_size\n",
+      "        self.body_size = abs(body_size)\n"))
+fault('ctor-body-value-stripped', ['C18'], ('body.py',
+      "        self.value = value\n", "        self.value = value.rstrip(b'\\x00')\n"))
+
 # ---- behaviour-preserving edits --------------------------------------
 equiv('rename-locals-marshal', [], ('base.py',
       'byte, offset, output, processing_bitset = -1, 0, [], False',
@@ -325,6 +345,41 @@ equiv('timestamp-tz-alias', [], ('decode.py',
 equiv('flags-offset-name', [], ('header.py',
       'self.properties.unmarshal(flags, data[12 + offset:])',
       'start = 12 + offset\n        self.properties.unmarshal(flags, data[start:])'))
+
+# ---- equivalents aimed at the round-2 rules ----------------------------
+equiv('protocol-header-tuple-assign', [], ('header.py',
+      "        self.major_version = major_version\n        self.minor_version = minor_version\n        self.revision = revision",
+      "        (self.major_version, self.minor_version,\n         self.revision) = major_version, minor_version, revision"))
+equiv('protocol-header-major-or-zero', [], ('header.py',
+      "        self.major_version = major_version\n",
+      "        self.major_version = major_version or 0\n"))
+equiv('codec-explicit-strict', [], ('encode.py',
+      "    temp = value.encode('utf-8')",
+      "    temp = value.encode('utf-8', 'strict')"),
+      ('decode.py', "return length + 1, value[1:length + 1].decode('utf-8')",
+       "return length + 1, value[1:length + 1].decode('utf-8', errors='strict')"))
+equiv('codec-name-respelled', [], ('encode.py',
+      "    temp = value.encode('utf-8')", "    temp = value.encode('UTF-8')"))
+equiv('codec-default-encoding', [], ('encode.py',
+      "    temp = value.encode('utf-8')", "    temp = value.encode()"))
+equiv('boolean-ne-zero', [], ('decode.py',
+      "return 1, bool(common.Struct.byte.unpack_from(value[0:1])[0])",
+      "return 1, common.Struct.byte.unpack_from(value[0:1])[0] != 0"))
+equiv('decimal-scale-by-multiplication', [], ('encode.py',
+      "        raw = int(value.scaleb(decimals))",
+      "        raw = int(value * (10 ** decimals))"))
+equiv('unrelated-class-with-name-attr', [], ('common.py',
+      "class Struct:",
+      "class _Named:\n    def __init__(self, name, index):\n        self.name = name\n        self.index = index\n        self.flags = 0\n\n\nclass Struct:"))
+equiv('os-path-import-unused', [], ('common.py',
+      "import struct\n", "import os.path\nimport struct\n"))
+equiv('valid-responses-annotated-tuple-free', [], ('base.py',
+      "    valid_responses: typing.List = []",
+      "    valid_responses: typing.List[str] = []"))
+equiv('attributes-returns-copy', [], ('base.py',
+      "        return cls.__slots__\n", "        return list(cls.__slots__)\n"))
+equiv('body-ctor-annotated', [], ('body.py',
+      "        self.value = value\n", "        self.value: bytes = value\n"))
 
 json.dump(F, open(os.path.join(HERE, 'faults.json'), 'w'), indent=1)
 json.dump(E, open(os.path.join(HERE, 'equivalents.json'), 'w'), indent=1)
